@@ -198,6 +198,14 @@ func c02Generate(c *mon.Ctx) {
 	// 4. history cases: the receiver reached its value through each mutator
 	hr := c.SharedRng("moves")
 
+	for rep := 0; rep < c.N(60, 2000); rep++ {
+		mv := mon.PlanElemMove("decode-rejected", hr)
+		q := gen.Fresh(hr)
+		b := mon.MkElemCase(q, gen.DrawRepr(hr, false))
+		op := []string{"add", "sub", "double", "negate", "arg-add", "arg-sub"}[rep%6]
+		c.Structured(func() any { return &c02Case{Op: op, B: &b, Alias: "distinct", Rel: "unrelated", Move: &mv, Observe: rep%2 == 0} })
+	}
+
 	for rep := 0; rep < 6; rep++ {
 		for _, via := range mon.ElemVias {
 			mv := mon.PlanElemMove(via, hr)
@@ -416,8 +424,10 @@ func c02Run(c *mon.Ctx, csAny any) {
 		pan, pv := mon.Call(func() {
 			if cs.Op == "add-nil" {
 				a.Add(nil)
+				a.Add(mon.NilElem)
 			} else {
 				a.Subtract(nil)
+				a.Subtract(mon.NilElem)
 			}
 		})
 		if pan {
